@@ -201,14 +201,17 @@ def T.maybeIncref (t : T) (name : String) (rules : List DRule) : T :=
 def T.maybeDecref (t : T) (name : String) (rules : List DRule) : T :=
   if t.refd name then (refsOf rules).foldl (fun t x => T.decref fuel t x) t else t
 
-/-- `UpdateChain`. -/
+/-- `UpdateChain` (order as repaired in /repo e60ddc3: the old chain's own force reference is dropped BEFORE references
+are taken on behalf of the new rules). -/
 def T.updateChain (t : T) (name : String) (ch : Chain) : T :=
   let t := if ch.force then T.incref fuel t name else t
+  let old := t.chains.get name
+  let t := match old with
+    | some o => if o.force then T.decref fuel t name else t
+    | none => t
   let t := t.maybeIncref name ch.rules
-  let t := match t.chains.get name with
-    | some old =>
-      let t := if old.force then T.decref fuel t name else t
-      t.maybeDecref name old.rules
+  let t := match old with
+    | some o => t.maybeDecref name o.rules
     | none => t
   let t := { t with chains := t.chains.set name ch }
   if t.refd name then { t with dirty := sAdd t.dirty name }.invalidate else t
